@@ -118,6 +118,35 @@ Definition find_offset_corpus (freq : nat) (window : option nat) (plain : bool)
 
 Definition content_window : option nat := Some (find_offset_window_factor * rune_offset_frequency).
 
+(** ---- wordMatchTree.matches (matchtree.go): the fast path that evaluates a case-sensitive regexp \bLIT\b without the regexp
+    engine, on the BYTES of the document (or of the file name).  bits.go characterClass; isWord(i) = 0 <= i < len(data) &&
+    characterClass(data[i]); an occurrence found by bytes.Index(data[offset:], word) at s is accepted when both of its ends
+    are word/non-word transitions.  Resume offsets as repaired by /repo 260937d and d7a2c44: behind an ACCEPTED occurrence
+    (offset = relEndOffset: the next occurrence may start exactly there), one byte past the start of a REJECTED one.
+    fuel: every round advances the offset (the word is a non-empty OpLiteral), |data| + 1 rounds suffice. *)
+Definition is_word_byte (c : N) : bool :=
+  ((97 <=? c) && (c <=? 122) || (65 <=? c) && (c <=? 90) || (48 <=? c) && (c <=? 57) || (c =? 95))%N.
+Definition word_at (data : list N) (i : nat) : bool :=
+  match nth_error data i with Some c => is_word_byte c | None => false end.
+Definition wboundary (data : list N) (i : nat) : bool :=
+  negb (Bool.eqb (match i with 0 => false | S j => word_at data j end) (word_at data i)).
+Fixpoint word_scan (w data : list N) (off fuel : nat) : list nat :=
+  match fuel with
+  | 0 => []
+  | S f =>
+      match index_sub w (skipn off data) with
+      | None => []
+      | Some idx =>
+          let s := off + idx in
+          let e := s + length w in
+          if wboundary data s && wboundary data e then s :: word_scan w data e f
+          else word_scan w data (S s) f
+      end
+  end.
+Definition word_offsets (w data : list N) : list nat := word_scan w data 0 (S (length data)).
+Definition word_cands (fn : bool) (w data : list N) : list cand :=
+  map (fun s => {| c_fn := fn; c_off := s; c_sz := length w |}) (word_offsets w data).
+
 (** ================= correspondence runner ================= *)
 Definition pair_eqb (a b : N * N) : bool := N.eqb (fst a) (fst b) && N.eqb (snd a) (snd b).
 Definition outN_eqb (a : outcome nat) (b : option N) : bool :=
@@ -135,7 +164,12 @@ Inductive c02case :=
 | G_samples (docs : list (list N)) (samples end_runes : list N)                         (* builder sampling, read back from the shard *)
 | G_brk (text : list N) (ms : list (bool * N * N)) (res : option (list (bool * N * N)))  (* breakMatchesOnNewlines; None = panic *)
 | G_find (filename plain : bool) (docs : list (list N)) (tail : list N) (qs : list (N * N * option N))
-    (* findOffset(filename, r) for (document, r) pairs; None = error / panic *).
+    (* findOffset(filename, r) for (document, r) pairs; None = error / panic *)
+| G_word (w data : list N) (offs : list N)
+    (* wordMatchTree{word}.matches on a document with these bytes: byteOffset of the candidates, in order *)
+| G_wordsearch (fn : bool) (w data : list N) (name_len : N) (res : list (bool * N * N))
+    (* END TO END: the ranges Search reports in chunk mode for the case-sensitive query \bLIT\b on this document (content or
+       file name) = gatherMatches over the word atom's candidates *).
 
 Definition mk_map (m : list (N * N)) : list (nat * nat) := map (fun p => (N.to_nat (fst p), N.to_nat (snd p))) m.
 
@@ -159,5 +193,8 @@ Definition c02_ok (c : c02case) : bool :=
                         outN_eqb (find_offset_corpus rune_offset_frequency
                                     (if filename then None else content_window) plain docs tail
                                     (N.to_nat idx) (N.to_nat r)) res) qs
+  | G_word w data offs => nlist_eqb (map N.of_nat (word_offsets w data)) offs
+  | G_wordsearch fn w data nl res =>
+      list_eqb cand_row_eqb (map cand_out (gather (N.to_nat nl) (word_cands fn w data))) res
   end.
 Definition c02_mismatches (cs : list c02case) : list N := bad_indexes c02_ok cs.
